@@ -35,6 +35,24 @@ def split_handler(R, rep):
     F = R.F
     ws = [w for w in R.field_writes(POOL, "quantity") if w[2] in ("MulAssign", "DivAssign")]
     hs = {(w[0].parent or w[0].id) for w in ws}
+    if not hs:
+        # …or through a helper that receives `&mut pool.quantity` and scales what it points to
+        for b in F.user_bodies("cgt_core"):
+            if "::matcher::" not in b.id:
+                continue
+            for i, t in b.calls():
+                hb = F.bodies.get(t["callee"])
+                if hb is None or hb.id == b.id:
+                    continue
+                for ai, a in enumerate(t["args"]):
+                    pl = op_place(a)
+                    if pl is None or R._ref_target(b, pl) != (POOL, "quantity"):
+                        continue
+                    for j, u in hb.calls():
+                        if is_decimal_arith_assign(u["callee"]) in ("MulAssign", "DivAssign"):
+                            tgt = root_of_operand(hb, u["args"][0])
+                            if tgt and tgt[0] == ai + 1:
+                                hs.add(b.parent or b.id)
     if len(hs) != 1:
         rep.unresolved("R1", "SPLITH", f"{len(hs)} functions scale pool.quantity")
         return None
@@ -107,6 +125,23 @@ def ratio_ops(R, rep, h):
                 continue
             for v in variants:
                 seen.setdefault(v, []).append((k, rhs, b.loc(t["sp"])))
+        if not seen and label == "pool handler":
+            # the handler may hand `&mut pool.quantity` to a helper that does the scaling (the look-ahead's accumulator reused):
+            # the helper's compound assignments through that parameter are the handler's
+            for i, t in b.calls():
+                hb = F.bodies.get(t["callee"])
+                if hb is None or hb.id == b.id:
+                    continue
+                for ai, a in enumerate(t["args"]):
+                    pl = op_place(a)
+                    if pl is None or R._ref_target(b, pl) != (POOL, "quantity"):
+                        continue
+                    htb = R.terms(hb, 0)
+                    for j, k, rhs, variants, fields, u in _variant_arm_ops(F, hb, htb):
+                        tgt = root_of_operand(hb, u["args"][0])
+                        if k in ("MulAssign", "DivAssign") and tgt and tgt[0] == ai + 1:
+                            for v in variants:
+                                seen.setdefault(v, []).append((k, rhs, hb.loc(u["sp"])))
         for v, want in (("Split", "MulAssign"), ("Unsplit", "DivAssign")):
             got = seen.get(v, [])
             ok = len(got) == 1 and got[0][0] == want and isinstance(got[0][1], tuple) and got[0][1][0] == "field" and got[0][1][2] == "ratio" \
@@ -249,3 +284,7 @@ def run(ctx, rep):
     ratio_ops(R, rep, h)
     unit_discipline(R, rep)
     variant_coverage(R, rep)
+    # a SPLIT/UNSPLIT rescales the shares of ITS security only: in the look-ahead every ratio update sits under the ticker guard
+    # (shared with C02-R6 / C09-R2; seeded change C10-s4)
+    import rules.c02 as c02
+    c02.same_security(R, rep, "R5")
